@@ -96,6 +96,7 @@ fn ws_alphabet() -> Vec<Vec<u8>> {
     toks(&[
         b"\x81", b"\x82", b"\x80", b"\x88", b"\x89", b"\x8a", b"\x01", b"\x00", b"\x0f", b"\x7e", b"\x7f", b"\xfe", b"\xff", b"\x7d", b"\x05",
         b"\x85", b"\x00\x00\x00\x00", b"hello", b"\x03\xe8", b"\xff\xff\xff\xff\xff\xff\xff\xff", b"\x80\x00\x00\x00\x00\x00\x00\x00",
+        b"\x00\x00\x01\x00\x00\x00\x00\x00",
     ])
 }
 
@@ -149,7 +150,7 @@ pub fn group() -> Group {
                 prefix: vec![],
                 suffix: vec![],
                 alphabet: ws_alphabet(),
-                max_tokens: if main { [4, 5] } else { [3, 4] },
+                max_tokens: if mx == 65_536 { [4, 6] } else if main { [4, 5] } else { [3, 4] },
                 seeds: ws_seeds(server),
                 double: i == 4,
                 delivery: Delivery::Framed,
